@@ -50,6 +50,7 @@ func Worker(shard, n int, tier string) *engine.Result {
 	f := replica.NewFix()
 	base := replica.Templates()
 	tmpl := append(append([]replica.Template{}, base...), replica.GovTemplates()...)
+	tmpl = append(tmpl, replica.AdversarialTemplates()...)
 	ps := plans(tier, len(tmpl), len(base))
 	res.Extra["histories"] = len(ps)
 	var cur string
@@ -126,7 +127,7 @@ func Run(tier string) int {
 	res.Sample(map[string]any{"history": "{liquidate} {doubleSignEvidence} + 3 empty blocks, all invariant routes after each of the 5 commits"})
 	return engine.Finish(res, engine.Meta{
 		Property: Prop, Tier: tier, Level: "model_checking", Start: start,
-		Rule: "every template alone, every ordered pair in consecutive blocks and in one block over 21 templates (18 base incl. evidence/downtime, vesting, liquid vesting, DAO, ERC20, EVM, precompiles + 3 governance flows with deposits), thorough: all triples of base templates; real InitChain/BeginBlock/DeliverTx/EndBlock/Commit; after every commit every invariant route of the crisis keeper (bank, staking, distribution, gov) is evaluated; transitions = committed blocks checked, non-trivial = history with an executed transaction",
+		Rule:        "every template alone, every ordered pair in consecutive blocks and in one block over 27 templates (21 base incl. evidence/downtime, vesting, liquid vesting, DAO, ERC20, EVM, precompiles + 4 governance flows with deposits + 2 adversarial: coins pushed at the pinned module accounts in five ways, a two-denomination deposit burnt after a veto), thorough: all triples of base templates; real InitChain/BeginBlock/DeliverTx/EndBlock/Commit; after every commit every invariant route of the crisis keeper (bank, staking, distribution, gov) is evaluated; transitions = committed blocks checked, non-trivial = history with an executed transaction",
 		Assumptions: []string{"invariants are evaluated on the committed state after every block (not inside blocks)"},
 	})
 }
